@@ -61,7 +61,8 @@ STALE = [
 def gen_op(rng, n_query, allow_nested=True):
     stage = rng.choice(OPS)
     op = {'stage': stage, 'tag': rng.choice(['A', 'B', 'C']), 'sched': common.draw_sched(rng),
-          'orphans': rng.choice(['kill', 'drain']), 'n_processors': rng.randint(1, 4)}
+          'orphans': rng.choice(['kill', 'drain']), 'n_processors': rng.randint(1, 4),
+          'cleanup_yields': rng.choice([0, 0, 0.5, 1.0])}
     if stage == 'mapping':
         op['cfg'] = {'chunk_size': rng.randint(1, max(1, n_query // 2)),
                      'n_runners_up': rng.randint(0, 3), 'bootstrap_iteration': rng.choice([1, 3, 5]),
@@ -348,6 +349,7 @@ def run(scn, sb):
             # pre-existing files at an output path are removed unless the history wants them stale
             sched = dict(op['sched'])
             sched['orphans'] = op.get('orphans', 'kill')
+            sched['cleanup_yields'] = op.get('cleanup_yields', 0)
             nested_result = {}
             if op.get('nested'):
                 nop = op['nested']['op']
@@ -393,6 +395,8 @@ def run(scn, sb):
                 pr['nested_runs'] = pr.get('nested_runs', 0) + 1
                 res['evaluations'] += 1
                 touched += 1
+            if s.cleanup_yields:
+                pr['orphans_ran_during_cleanup_yields'] = pr.get('orphans_ran_during_cleanup_yields', 0) + s.cleanup_yields
             if getattr(s, 'n_orphans', 0):
                 pr['orphans_' + sched['orphans']] = pr.get('orphans_' + sched['orphans'], 0) + s.n_orphans
             desc = 'op %d %s(%s)%s -> %s' % (i, op['stage'], op['tag'],
